@@ -156,6 +156,8 @@ def quick_family() -> List[Skeleton]:
     add("$not of $or", [E(nm.m()), E("$not", [E("$or", [E(nm.m()), E(nm.m())])])], "not")
     for t in TIMES_VARIANTS[:2]:
         add(f"$not times {t}", [E(nm.m()), E("$not", [E(nm.m())], t), E(nm.m())], "not", "times")
+    add("$not times 0 (consumes nothing)", [E(nm.m()), E("$not", [E(nm.m())], 0), E(nm.m())], "not", "times")
+    add("operand $not times 0", [E(nm.m(), [E("$not", [E(nm.o())], 0), E(nm.o())])], "opnd", "not", "times")
     add("$not $not", [E("$not", [E("$not", [E(nm.m())])])], "not")
     add("$not $not of a repeated instruction", [E("$not", [E("$not", [E(nm.m(), None, 2)])]), E(nm.m())], "not", "times")
     add("$not $not of a two-instruction group", [E("$not", [E("$not", [E("$and", [E(nm.m()), E(nm.m())])])]), E(nm.m())], "not", "nest")
